@@ -2348,7 +2348,7 @@ theorem handleClosed_inv (e : Engine) (hinv : Inv e) : Inv e.handleClosed.1 := b
   · simp only []
     -- marked Disconnected, timers and timeout records dropped
     let e0 : Engine := { e with state := .disconnected, connackDeadline := none, nextPing := none, pingDeadline := none, timeouts := [] }
-    have hok0 : e0.core.Ok := ((Pres.of_core_conn (e := e) (e' := e0) false rfl (by simp)) hok).1
+    have hok0 : e0.core.Ok := ((Pres.of_core_conn_to (e := e) (e' := e0) false [] rfl (by simp) (by simp)) hok).1
     have h0 : Big [] [] e0.view := by
       show Big [] [] { e.view with state := .disconnected, noTimeouts := true, connackSet := false }
       exact { h with h1 := (fun hh => by cases hh), c1 := (fun hh => by cases hh), f := (fun hh => by cases hh) }
@@ -2899,10 +2899,10 @@ theorem handleConnack_inv (e : Engine) (c : Connack) (hinv : Inv e) :
             by_cases hd : e.cfg.drainOneAtATime = true
             · have : (!e1.cfg.drainOneAtATime) = false := by simp [e1, hd]
               rw [if_neg (by simp [this])]
-              exact ⟨⟨hok0.sorted, hok0.ids, hok0.userKind, hok0.wc, fun _ _ => rfl⟩, List.Perm.refl _⟩
+              exact ⟨⟨hok0.sorted, hok0.ids, hok0.userKind, hok0.wc, fun _ _ => rfl, hok0.to⟩, List.Perm.refl _⟩
             · have : (!e1.cfg.drainOneAtATime) = true := by simp [e1, hd]
               rw [if_pos this]
-              exact ⟨⟨hok0.sorted, hok0.ids, hok0.userKind, hok0.wc, fun hh _ => absurd hh hd⟩, List.Perm.refl _⟩
+              exact ⟨⟨hok0.sorted, hok0.ids, hok0.userKind, hok0.wc, fun hh _ => absurd hh hd, hok0.to⟩, List.Perm.refl _⟩
           exact (this hok).1
         have hj2 : Handshaken e2 := by
           refine ⟨iv.2.2.2.2.2.2.1.trans hpp, iv.2.2.2.2.2.2.2.1.trans hpn, ?_, ?_⟩
@@ -3126,7 +3126,7 @@ theorem handlePubrec_branch_pres (e : Engine) (a : Ack) (opId : Nat) (o : Op) (h
   intro hok
   have hid := hok.id_eq (show e.core.ops.lookup opId = some o from ho)
   have h1 := setOp_pres e o { o with pubrel := some (.pubrel { packetId := a.packetId }) }
-    (by simpa [hid] using ho) rfl rfl rfl rfl
+    (by simpa [hid] using ho) rfl rfl rfl rfl rfl
   cases henq : (e.setOp { o with pubrel := some (.pubrel { packetId := a.packetId }) }).enqueue opId .high false with
   | none => exact h1 hok
   | some e2 => exact (h1.trans (enqueue_pres _ _ _ _ _ henq)) hok
@@ -4309,7 +4309,7 @@ theorem processAckTimeouts_hk : ∀ (fuel : Nat) (e : Engine), HK e (Engine.proc
       simp only []
       split
       · have h1 : HK e { e with timeouts := e.timeouts.erase (id, deadline) } := by
-          refine ⟨⟨Pres.of_core_eq rfl, ?_⟩, ⟨rfl, rfl, .inl rfl⟩⟩
+          refine ⟨⟨Pres.of_core_wc_to e.pendingWC (e.timeouts.erase (id, deadline)) rfl (fun _ hx => hx) (fun _ hx => List.mem_of_mem_erase hx), ?_⟩, ⟨rfl, rfl, .inl rfl⟩⟩
           intro _ h
           show Big [] [] { e.view with noTimeouts := (e.timeouts.erase (id, deadline)).isEmpty }
           refine h.setNoTimeouts _ ?_
@@ -4603,11 +4603,11 @@ theorem reset_inv (e : Engine) (hinv : Inv e) : Inv e.reset := by
 theorem step_inv (e : Engine) (ev : Event) (hinv : Inv e) : Inv (step e ev).1 := by
   have hb : ∀ t, Inv (e.begin t) := fun t => hinv.of_eq rfl rfl |> fun _ => by
     obtain ⟨hok, h, hD, hS⟩ := hinv
-    exact ⟨⟨hok.sorted, hok.ids, hok.userKind, hok.wc, hok.slow⟩, h, hD, hS⟩
+    exact ⟨⟨hok.sorted, hok.ids, hok.userKind, hok.wc, hok.slow, hok.to⟩, h, hD, hS⟩
   have hf : ∀ (en : Engine) (r : Res), Inv en → Inv (en.finish r).1 := by
     intro en r hi
     obtain ⟨hok, h, hD, hS⟩ := hi
-    exact ⟨⟨hok.sorted, hok.ids, hok.userKind, hok.wc, hok.slow⟩, h, hD, hS⟩
+    exact ⟨⟨hok.sorted, hok.ids, hok.userKind, hok.wc, hok.slow, hok.to⟩, h, hD, hS⟩
   have hh : ∀ (x : Engine × Res), Inv x.1 → Inv (haltOnErr x).1 := by
     intro x hi
     unfold haltOnErr
